@@ -26,7 +26,8 @@ MANIFEST_ENTRY = {
         "window computed from the manifest's own numbers is accepted (C01_number_partial), and the init "
         "decision never consults the window (C01_init). Hand-written model tied to the code every run by "
         "correspondence on the real Representation/DashTiming/LiveMedia code and on statuses returned by the "
-        "real Flask app for URLs taken from real manifests."),
+        "real Flask app for URLs taken from real manifests."
+        " The functions on this path (timedelta_to_timecode, get_segment_index with its loop, generateSegmentTimeline, the media handler's index calculation) are in addition translated from the source text into Lean on every run and proved equal to the model (Props/GenTie*.lean); Props/Generated.lean states C01 about the translated definitions only."),
     "level_note": (
         "Explicit hypotheses: leeway covers half the longest segment (+rounding) for $Time$ and two segment "
         "durations for $Number$, half the longest segment <= segment_duration, durations >= 1 us. leeway=0 is "
